@@ -863,6 +863,7 @@ struct Worker {
     stdin: ChildStdin,
     rx: Receiver<String>,
     stderr: std::sync::Arc<std::sync::Mutex<String>>,
+    stderr_thread: Option<std::thread::JoinHandle<()>>,
 }
 impl Worker {
     fn spawn() -> Worker {
@@ -893,7 +894,7 @@ impl Worker {
         });
         let stderr = std::sync::Arc::new(std::sync::Mutex::new(String::new()));
         let se = stderr.clone();
-        std::thread::spawn(move || {
+        let stderr_thread = std::thread::spawn(move || {
             let rd = BufReader::new(err);
             for l in rd.lines().map_while(Result::ok) {
                 let mut g = se.lock().unwrap();
@@ -903,7 +904,7 @@ impl Worker {
                 }
             }
         });
-        Worker { child, stdin, rx, stderr }
+        Worker { child, stdin, rx, stderr, stderr_thread: Some(stderr_thread) }
     }
     /// Ok(answer) | Err("died" | "hang")
     fn ask(&mut self, line: &str, timeout: Duration) -> Result<String, &'static str> {
@@ -922,7 +923,10 @@ impl Worker {
     /// after a death: did the runtime report a stack overflow?
     fn death_kind(&mut self) -> &'static str {
         let _ = self.child.wait();
-        std::thread::sleep(Duration::from_millis(20));
+        // the reader ends at EOF of the dead child's stderr: after the join the message, if any, is in
+        if let Some(h) = self.stderr_thread.take() {
+            let _ = h.join();
+        }
         let g = self.stderr.lock().unwrap();
         if g.contains("overflowed its stack") {
             "stack_overflow"
@@ -1096,7 +1100,7 @@ impl Adv {
         let line = format!("{api} {} {}", self.stack_kb, hex(src.as_bytes()));
         let t0 = Instant::now();
         let stack_kb = self.stack_kb;
-        let ans = self.w.ask(&line, Duration::from_secs(20));
+        let ans = self.w.ask(&line, Duration::from_secs(60));
         rep.case(stream, None);
         let short = |s: &str| -> serde_json::Value {
             if s.len() <= 300 {
@@ -1126,7 +1130,7 @@ impl Adv {
                         src.len(),
                         self.stack_kb,
                         match k {
-                            "hang" => "no answer within 20 s",
+                            "hang" => "no answer within 60 s",
                             "stack_overflow" => "the thread overflowed its stack and the process was killed (not catchable)",
                             _ => "the process aborted",
                         }
